@@ -146,7 +146,8 @@ func psReachValV(fn *ssa.Function, starts []*ssa.BasicBlock, cut func(from *ssa.
 		}
 		return sb.String()
 	}
-	evalV := func(v ssa.Value, e env) (res, known bool) {
+	var evalV func(v ssa.Value, e env) (res, known bool)
+	evalV = func(v ssa.Value, e env) (res, known bool) {
 		switch x := v.(type) {
 		case *ssa.Const:
 			if x.Value != nil && x.Value.Kind() == constant.Bool {
@@ -159,7 +160,7 @@ func psReachValV(fn *ssa.Function, starts []*ssa.BasicBlock, cut func(from *ssa.
 			}
 		case *ssa.UnOp:
 			if x.Op.String() == "!" {
-				v, k := evalVHelper(x.X, e, phiIdx)
+				v, k := evalV(x.X, e)
 				return !v, k
 			}
 		case *ssa.BinOp:
